@@ -237,6 +237,66 @@ pub fn exec(op: &str, a: &[u64]) -> Result<Outcome, String> {
             }
             Ok(o)
         }
+        "wstask" => {
+            // the whitespace-correction task on a corrupted item: one label per input character, -1 on the prefix /
+            // suffix tokens.  wstask g text seed iw dw np ns | corrupted (code points, observed)
+            let (g, s) = r.gtext()?;
+            let seed = r.nat()?;
+            let iw = r.nat()? as f64 / 1000.0;
+            let dw = r.nat()? as f64 / 1000.0;
+            let np = r.usize()?;
+            let ns = r.usize()?;
+            let recorded = r.string()?;
+            r.end()?;
+            if !(iw > 0.0 || dw > 0.0) {
+                return Err("both probabilities zero".into());
+            }
+            use text_utils::data::task::{train_task, TrainTaskConfig};
+            use text_utils::data::TrainTaskInput;
+            use text_utils::tokenization::{CharTokenizerConfig, SpecialConfig, TokenizeConfig, TokenizerConfig};
+            let f = preprocessing(PreprocessingFnConfig::WhitespaceCorruption(Part::Input, iw, dw, g));
+            let info = TextDataInfo { seed, file_idx: 0, marks: Default::default() };
+            let (item, _) = f(TrainData::new(s.clone(), None), info).map_err(|e| e.to_string())?;
+            let out = item.verif_input().to_string();
+            let special = SpecialConfig { prefix: vec!["<bos>".to_string(); np], suffix: vec!["<eos>".to_string(); ns], ..SpecialConfig::default() };
+            let cfg = TokenizerConfig { tokenize: TokenizeConfig::Character(CharTokenizerConfig { use_graphemes: g, unk_token: "<unk>".to_string() }), special };
+            let task = train_task(TrainTaskConfig::WhitespaceCorrection(g, cfg));
+            let res = task(&item);
+            let mut o;
+            match res {
+                Ok(TrainTaskInput::SequenceClassification { token_ids, labels, .. }) => {
+                    let mut v = vec![token_ids.len() as u64];
+                    enc_nats(&mut v, labels.iter().map(|l| (*l + 1) as u64));
+                    o = Outcome::new(ok(v));
+                    let n_chars = CS::new(&out, g).len();
+                    o.check(labels.len() == token_ids.len(), "not one label per token");
+                    o.check(token_ids.len() == np + n_chars + ns, "not one token per input character plus prefix and suffix");
+                    o.check(labels.len() >= np + ns && labels[..np].iter().all(|l| *l == -1) && labels[labels.len() - ns..].iter().all(|l| *l == -1), "prefix / suffix tokens do not carry the ignore label -1");
+                    if labels.len() == np + n_chars + ns {
+                        let mid: Vec<Operation> = labels[np..np + n_chars].iter().filter_map(|l| op_of(*l as u64).ok()).collect();
+                        o.check(mid.len() == n_chars, "a character carries a label that is not an operation");
+                        if mid.len() == n_chars && gen::is_clean_str(&s) && unmixed(&s, g) && unmixed(&out, g) {
+                            let nonws = |x: &str| clusters(x, g).into_iter().filter(|c| !c.iter().all(|&u| char::from_u32(u as u32).unwrap().is_whitespace())).collect::<Vec<_>>();
+                            if nonws(&out) == nonws(&s) {
+                                o.check(matches!(repair(&out, &mid, g), Ok(ref rep) if *rep == s), "repairing the input with the labels of its characters does not give the target");
+                            }
+                        }
+                    }
+                }
+                Ok(_) => return Err("unexpected task input kind".into()),
+                Err(_) => {
+                    o = Outcome::new(err("task"));
+                    if gen::is_clean_str(&s) && unmixed(&s, g) && unmixed(&out, g) {
+                        let nonws = |x: &str| clusters(x, g).into_iter().filter(|c| !c.iter().all(|&u| char::from_u32(u as u32).unwrap().is_whitespace())).collect::<Vec<_>>();
+                        if nonws(&out) == nonws(&s) {
+                            o.check(false, "the whitespace-correction task failed on a corrupted clean text");
+                        }
+                    }
+                }
+            }
+            o.check(recorded == out, "not a deterministic function of (text, seed): differs from the output of the generating run");
+            Ok(o)
+        }
         "wstable" => {
             let lo = r.nat()? as u32;
             let hi = r.nat()? as u32;
@@ -400,6 +460,25 @@ pub fn run_c10(ctx: &mut Ctx) {
         let mut v = req_gtext(&s, g);
         enc_nats(&mut v, ops);
         ctx.case("repair", &v);
+        if i % 120 == 5 {
+            // the error path with a long non-ASCII text (error messages that quote the input): every alignment of the
+            // two-byte letters relative to byte 256
+            let pad = ctx.rng.random_range(0..4);
+            let mut long = "a".repeat(pad);
+            while long.len() < 300 {
+                long.push_str(" \u{e4}\u{e4}\u{e4}\u{4e2d}");
+            }
+            let n = CS::new(&long, g).len();
+            let mut v = req_gtext(&long, g);
+            enc_nats(&mut v, (0..n - 1 - pad).map(|_| 0u64));
+            ctx.case("repair", &v);
+            // and operations() between long texts that do not match
+            let other = format!("{long}x");
+            let mut v = vec![g as u64];
+            v.extend(enc_text(&long, g));
+            v.extend(enc_text(&other, g));
+            ctx.case("wsops", &v);
+        }
     }
 }
 
@@ -437,5 +516,14 @@ pub fn run_c14(ctx: &mut Ctx) {
         };
         enc_str(&mut v, &out);
         ctx.case("corruptws", &v);
+        if i % 3 == 0 {
+            // the whitespace-correction task on the corrupted item, with 0-2 prefix and suffix tokens
+            let np = ctx.rng.random_range(0..=2u64);
+            let ns = ctx.rng.random_range(0..=2u64);
+            let mut v = req_gtext(&s, g);
+            v.extend([seed, iw, dw, np, ns]);
+            enc_str(&mut v, &out);
+            ctx.case("wstask", &v);
+        }
     }
 }
